@@ -385,7 +385,7 @@ NoTokenNoConn ==
 (* C18: the address of an accepted connection is the sanitised client_ip of
    the most recent carrier that presented the ClientID when the session was
    established (NoAddr only if the bounded memory had forgotten it). *)
-SetIsSanitised == \A j \in DOMAIN sets : sets[j].addr = Sanit(ip(sets[j].k)) /\ sets[j].id = pres(sets[j].k)
+SetIsSanitised == \A j \in DOMAIN sets : sets[j].k \in Carriers => sets[j].addr = Sanit(ip(sets[j].k)) /\ sets[j].id = pres(sets[j].k)
 RemoteAddrRight ==
   /\ \A j \in DOMAIN accepted : accepted[j].addr = accepted[j].want
   /\ \A id \in Ids : sessAddr[id] # None => sessAddr[id] = sessWant[id]
